@@ -301,6 +301,28 @@ def gen_items(tier, seed, lfactor=3):
         items.append(Item(name, "const_default", {"T": "CD", "N": n},
                           f"    let a: GenericArray<CD, U{n}> = GenericArray::const_default();\n    sum!(h, a.as_slice(), v_cd);\n    let b: GenericArray<u32, U{n}> = GenericArray::const_default();\n    sum!(h, b.as_slice(), v_u32);",
                           psum(psum(7, [0xAB * 65536 + 0xCDEF] * n, lambda v: v), [0] * n, lambda v: v)))
+    # every const fn of the crate on a 2^20-element array: none of them may cost the const evaluator a step per element (the
+    # deny-by-default lint long_running_const_eval would stop the user's crate from compiling); three elements are read
+    H = 1 << 20
+    cdv = 0xAB * 65536 + 0xCDEF
+    e3 = lambda v: mix(mix(mix(mix(7, H), v), v), v)
+    rd3 = lambda vf: f"    h = mix(h, s.len() as u64);\n    h = mix(h, {vf}(&s[0]));\n    h = mix(h, {vf}(&s[{H // 2}]));\n    h = mix(h, {vf}(&s[{H - 1}]));"
+    huge = [
+        ("const_default_fn_u8", "    let a: GenericArray<u8, U1048576> = GenericArray::const_default();\n    let s = a.as_slice();\n" + rd3("v_u8"), e3(0)),
+        ("const_default_fn_cd", "    let a: GenericArray<CD, U1048576> = GenericArray::const_default();\n    let s = a.as_slice();\n" + rd3("v_cd"), e3(cdv)),
+        ("const_default_assoc_cd", "    let a: GenericArray<CD, U1048576> = <GenericArray<CD, U1048576> as const_default::ConstDefault>::DEFAULT;\n    let s = a.as_slice();\n" + rd3("v_cd"), e3(cdv)),
+        ("from_array_into_array", "    let a = GenericArray::<u8, U1048576>::from_array([9u8; 1048576]);\n    let s = a.as_slice();\n" + rd3("v_u8") + "\n    let back: [u8; 1048576] = a.into_array();\n    h = mix(h, back[1048575] as u64);", mix(e3(9), 9)),
+        ("from_slice_forms", "    let d = [5u8; 1048576];\n    let s = GenericArray::<u8, U1048576>::from_slice(&d).as_slice();\n" + rd3("v_u8")
+         + "\n    match GenericArray::<u8, U1048576>::try_from_slice(&d) { Ok(r) => { h = mix(h, r.as_slice().len() as u64); } Err(_) => { h = mix(h, 0); } }", mix(e3(5), H)),
+        ("from_mut_slice_write", "    let mut d = [5u8; 1048576];\n    GenericArray::<u8, U1048576>::from_mut_slice(&mut d).as_mut_slice()[1048575] = 6;\n    h = mix(h, d[1048575] as u64);\n    h = mix(h, d[0] as u64);", mix(mix(7, 6), 5)),
+        ("chunks_and_back", "    let d = [3u8; 1048576];\n    let (c, r) = GenericArray::<u8, U1024>::chunks_from_slice(&d);\n    h = mix(h, c.len() as u64);\n    h = mix(h, r.len() as u64);\n    h = mix(h, c[1023].as_slice()[1023] as u64);\n    let s = GenericArray::<u8, U1024>::slice_from_chunks(c);\n" + rd3("v_u8"),
+         mix(mix(mix(mix(mix(mix(mix(7, 1024), 0), 3), H), 3), 3), 3)),
+        ("uninit_assume_init", "    let mut a = GenericArray::<MaybeUninit<u8>, U1048576>::uninit();\n    h = mix(h, a.as_slice().len() as u64);\n    let z: GenericArray<MaybeUninit<u8>, U1048576> = GenericArray::from_array([MaybeUninit::new(4u8); 1048576]);\n    let a: GenericArray<u8, U1048576> = unsafe { GenericArray::assume_init(z) };\n    let s = a.as_slice();\n" + rd3("v_u8"), 0),
+    ]
+    huge[-1] = (huge[-1][0], huge[-1][1], mix(mix(mix(mix(mix(7, H), H), 4), 4), 4))
+    for tmpl, body, want in huge:
+        name = nm()
+        items.append(Item(name, "huge_" + tmpl, {"N": H}, body, want))
     # control: the const evaluator must reject reading uninitialised memory
     rejects.append(("assume_init_partly_written", "const R: u8 = { let mut a = GenericArray::<u8, U3>::uninit(); a.as_mut_slice()[0] = MaybeUninit::new(1); let a: GenericArray<u8, U3> = unsafe { GenericArray::assume_init(a) }; a.as_slice()[2] };"))
     rejects.append(("from_mut_slice_wrong_len", "const R: u8 = { let mut d = [1u8, 2, 3]; let r = GenericArray::<u8, U2>::from_mut_slice(&mut d); r.as_slice()[0] };"))
@@ -378,12 +400,10 @@ def run(root, pid, tier, seed, only=None, lfactor=3, rule=None):
             if r[0] == "compile":
                 _, ci, err, spans = r
                 hit = False
-                for m in re.finditer(r"--> [^\n]*const%s_%d\.rs:(\d+):" % (tag, ci), err):
-                    ln = int(m.group(1))
+                for ln, head, _blk in E.error_locations(err, r"const%s_%d\.rs" % (tag, ci)):
                     for (a, b, it) in spans:
                         if a <= ln <= b:
-                            first = err[max(0, err.rfind("error", 0, m.start())):m.start()].strip().splitlines()
-                            bad_items.setdefault(it.name, "the const evaluator rejected it: " + (first[0] if first else "error"))
+                            bad_items.setdefault(it.name, "the const evaluator rejected it: " + head)
                             hit = True
                 if not hit:
                     print(err[-3000:])
@@ -420,7 +440,7 @@ def run(root, pid, tier, seed, only=None, lfactor=3, rule=None):
     samples.append({"reject": rejects[0][0], "body": rejects[0][1][:200]})
     return E.evidence(
         pid, tier, seed, "exploration", 2 * (len(items) + len(rejects)), len(nontrivial) + len(rejects),
-        rule or "const items generated for each const fn of the crate (len, from_array/into_array, as_slice, as_mut_slice, from_slice, try_from_slice, from_mut_slice, try_from_mut_slice, chunks_from_slice(_mut), slice_from_chunks(_mut), from_chunks(_mut), into_chunks(_mut), uninit/assume_init, arr! in its three forms (including type-level length expressions without a name), const_default) x N in {0,1,2,3,7,8,16,17,33,64,100,255,256,1024} x slice lengths (every L in 0..=3N+2 for N <= 17, boundary L beyond; N-1, N, N+1, 0 for the fallible forms) x element types u8, u32, (u8,u16), () x shared / mutable forms with writes through the result; seeded data. "
+        rule or "const items generated for each const fn of the crate (len, from_array/into_array, as_slice, as_mut_slice, from_slice, try_from_slice, from_mut_slice, try_from_mut_slice, chunks_from_slice(_mut), slice_from_chunks(_mut), from_chunks(_mut), into_chunks(_mut), uninit/assume_init, arr! in its three forms (including type-level length expressions without a name), const_default; each of them once more on a 2^20-element array, where a per-element cost would trip the long_running_const_eval lint) x N in {0,1,2,3,7,8,16,17,33,64,100,255,256,1024} x slice lengths (every L in 0..=3N+2 for N <= 17, boundary L beyond; N-1, N, N+1, 0 for the fallible forms) x element types u8, u32, (u8,u16), () x shared / mutable forms with writes through the result; seeded data. "
         "Oracle: (1) the compiler's const evaluator accepts the item (it rejects out-of-bounds and dangling pointers, writes through read-only provenance, uninitialised reads, invalid values with E0080); (2) its value - a checksum over every length and every element read - equals the value python computed natively; (3) main() re-evaluates the same const fn at run time and compares with the const value. Reject items (from_slice / from_mut_slice with L != N, chunks with N = 0 and a non-empty slice, assume_init of a partly written array) are compiled separately and must fail with E0080. "
         "Everything is compiled twice: against the crate built in the dev profile (debug assertions on) and in the release profile (off). non-trivial = items with N >= 1 and all reject items; distinct = distinct (template, parameters)",
         samples, classes, exhaustive=False,
